@@ -224,7 +224,7 @@ Section Spec.
       intros p st st' Hin Hok H; cbn [collect_go] in H.
     - inversion H; subst. exact Hok.
     - eapply IHrest; [eapply ID_field_rest; eauto| |exact H]. cbn [snd].
-      constructor; auto. exists rest. exact Hin.
+      apply Forall_app. split; auto. constructor; auto. exists rest. exact Hin.
     - destruct (collect_go frags rec (match tc with Some t => t | None => p end) sub st) as [st1|] eqn:E1;
         [|discriminate].
       eapply IHrest; [eapply ID_inline_rest; eauto| |exact H].
